@@ -24,6 +24,7 @@ PARTS += ["multipitch"]   # mir_eval/multipitch.py count functions, resampling, 
 PARTS += ["evglue"]       # event-metric glue: util.match_events / _fast_hit_windows, onset / beat F, segment.detection / deviation -> MirGen/EvGlue.lean (C04)
 PARTS += ["chordcmp"]     # mir_eval/chord.py comparison functions -> MirGen/ChordCmp.lean (C11)
 PARTS += ["hierarchy"]    # mir_eval/hierarchy.py T-/L-measure kernels -> MirGen/Hierarchy.lean (C17)
+PARTS += ["trmatch"]      # transcription.match_note_onsets / _offsets / match_notes + the three P/R/F functions -> MirGen/TrMatch.lean (C05, C04)
 
 
 def write_if_changed(path, text):
